@@ -308,3 +308,11 @@ MUTANTS.setdefault('C20', []).extend([
     ('pt-async-fallocate-swapped', _AP, "        self.fallocate(ctx, inode, handle, mode, offset, length)", "        self.fallocate(ctx, inode, handle, mode, length, offset)"),
     ('pt-async-open-drops-handle', _AP, "        Ok((handle, opts))", "        let _ = handle; Ok((None, opts))"),
 ])
+
+# statx -> stat64 (unit ptstatx)
+_SX = 'src/passthrough/statx.rs'
+MUTANTS.setdefault('C05', []).extend([
+    ('statx-mtime-from-ctime', _SX, "            st.st_mtime = self.stx_mtime.tv_sec;", "            st.st_mtime = self.stx_ctime.tv_sec;"),
+    ('statx-rdev-from-dev', _SX, "            st.st_rdev = makedev(self.stx_rdev_major, self.stx_rdev_minor);", "            st.st_rdev = makedev(self.stx_dev_major, self.stx_dev_minor);"),
+    ('statx-mask-any-bit', _SX, "        if self.stx_mask & STATX_BASIC_STATS != 0 {", "        if self.stx_mask != 0 {"),
+])
